@@ -214,17 +214,23 @@ def written_flags(o, i, rnd):
     return flags(n=rnd.choice([0, 0, 1, 2]), names=names, uva=rnd.random() < .8, uvk=rnd.random() < .8, partial=rnd.random() < .12)
 
 
-def prog_gen(UO, UI, nprog, seed):
+def prog_gen(UO, UI, nprog, seed, UIsame=None):
+    """UIsame: the callee universe with the wrapper's OWN names (a, b): wrapper and callee may then declare a same-named parameter,
+    which forwards must refuse (no signature could say which of the two a keyword reaches)"""
     def gen(shard, nshards):
         rnd = random.Random(seed)
         for k in range(nprog):
             a, b = rnd.randrange(len(UO)), rnd.randrange(len(UI))
-            fl = written_flags(UO[a], UI[b], rnd)
+            if UIsame is not None and rnd.random() < 0.2:
+                UIk = UIsame
+            else:
+                UIk = UI
+            fl = written_flags(UO[a], UIk[b], rnd)
             placement = PLACEMENTS[k % len(PLACEMENTS)]
             if placement == 'apply_super' and fl['partial']:
                 fl = dict(fl, partial=False, n=0, names=[])      # nothing written: the swapped callee takes no arguments at all
             if k % nshards == shard:
-                yield prog_event('prog/%d-%d-%d-%s' % (k, a, b, placement), UO[a], UI[b], fl, placement)
+                yield prog_event('prog/%d-%d-%d-%s%s' % (k, a, b, placement, '-samenames' if UIk is UIsame else ''), UO[a], UIk[b], fl, placement)
     return gen
 
 
@@ -259,7 +265,7 @@ def run(check, tier, seed, scratch):
     run_trace_leg(check, scratch, 'forwards-algebra', alggen.chain(*gens), WANT)
     # (b) executed programs
     nprog = 16000 if quick else 400000
-    run_trace_leg(check, scratch, 'programs', prog_gen(UO, UI, nprog, seed), None, module='Trace_Exec', describe=describe, classify=classify)
+    run_trace_leg(check, scratch, 'programs', prog_gen(UO, UI, nprog, seed, UIsame=U2), None, module='Trace_Exec', describe=describe, classify=classify)
     check.cov['exhaustive'] = False
     check.cov['programs'] = nprog
     check.cov['rule'] = ('(a) forwards = embed o mask on seeded (outer, inner, n, names, flags) cases over star-bearing outers x inners with disjoint '
